@@ -455,7 +455,10 @@ impl ConvolveMatrixData {
         rows: u32,
         data: Vec<f32>,
     ) -> Option<Self> {
-        if (columns * rows) as usize != data.len() || target_x >= columns || target_y >= rows {
+        if (columns as usize).checked_mul(rows as usize) != Some(data.len())
+            || target_x >= columns
+            || target_y >= rows
+        {
             return None;
         }
 
